@@ -38,6 +38,11 @@ pub enum Delivery {
     /// to the device: a VALID DeviceRequest (request spec i) as a third-party reader may encode it — member names as
     /// indefinite-length text strings, non-minimal heads — correctly encrypted with the next counter
     CraftedForeignRequest(usize),
+    /// the latest genuine message with an (unauthenticated) `status` member ADDED next to its data: 10, 11 or 20.
+    /// The data is what counts; the status of a message that carries data changes nothing.
+    LatestWithStatus(u8),
+    /// a harness-made ciphertext under the ALL-ZERO key with the next counter (no party ever holds that key)
+    CraftedZeroKey,
     /// to the device: a map whose member names are BYTE strings spelling the DeviceRequest names: CBOR, not a DeviceRequest
     CraftedBytesKeyed,
 }
@@ -130,7 +135,9 @@ impl World {
         let old_reader_ca = crate::pki::root_cert(&SigningKey::random(rng), "CN=Test Reader CA,C=US", 9);
         let rdr_reg = sess::registry(vec![(old_iaca.clone(), TrustPurpose::Iaca), (pki.iaca.clone(), TrustPurpose::Iaca), (pki.reader_ca.clone(), TrustPurpose::ReaderCa)]);
         let dev_reg = sess::registry(vec![(old_reader_ca, TrustPurpose::ReaderCa), (pki.reader_ca.clone(), TrustPurpose::ReaderCa), (old_iaca, TrustPurpose::Iaca), (pki.iaca.clone(), TrustPurpose::Iaca)]);
-        let e = sess::establish(sess::documents_of(mdocs.clone()), None, &specs[0], rdr_reg, dev_reg)
+        // every other holder's stored documents share one `Document::id`
+        let docs = if ndocs >= 2 && rng.gen_bool(0.5) { sess::documents_of_same_id(mdocs.clone()) } else { sess::documents_of(mdocs.clone()) };
+        let e = sess::establish(docs, None, &specs[0], rdr_reg, dev_reg)
             .expect("establish");
         // a parallel session whose messages serve as "foreign" deliveries
         let f = sess::establish(sess::documents_of(mdocs), None, &specs[0], Default::default(), Default::default())
@@ -247,6 +254,20 @@ impl World {
         let garbage = (vec![0x83u8, 0x01, 0x02], arr(vec![uint(0)]));
         match d {
             Delivery::Latest => pick(log, log.len().wrapping_sub(1)).unwrap_or(garbage),
+            Delivery::LatestWithStatus(k) => match pick(log, log.len().wrapping_sub(1)) {
+                Some((b, sym)) => match data_of(&b) {
+                    Some(data) => (session_data(Some(&data), Some([10u64, 11, 20][*k as usize % 3])), sym),
+                    None => (b, sym),
+                },
+                None => garbage,
+            },
+            Delivery::CraftedZeroKey => {
+                let recv_ctr = if to_device { keys.reader_ctr } else { rdr_view(&self.rdr).device_ctr };
+                let iv = iso_iv(!to_device, recv_ctr as u32 + 1);
+                let pt = if to_device { vec![0xa0] } else { vec![0xa0] };
+                let ct = aes_encrypt(&[0u8; 32], &iv, &pt);
+                (session_data(Some(&ct), None), sym_enc(99, &iv, arr(vec![uint(if to_device { 2 } else { 4 })])))
+            }
             Delivery::Replay(i) => pick(log, *i).unwrap_or(garbage),
             Delivery::Garbage => {
                 let n = rng.gen_range(0..20);
@@ -411,7 +432,8 @@ impl World {
                         self.raw.push(uuid.as_bytes().to_vec());
                         self.raw.push(payload.clone());
                         let by_payload = doc_type_of_payload(&payload).map(|t| self.docid(&t)).unwrap_or(98);
-                        let by_uuid = self.docid_of_uuid(&uuid);
+                        // (several stored documents may share one id: the id then names any of them)
+                        let by_uuid = { let c = self.docids_of_uuid(&uuid); if c.contains(&by_payload) { by_payload } else { c.first().copied().unwrap_or(97) } };
                         // the offered id and the offered payload must name the same document
                         if by_payload == by_uuid { arr(vec![uint(3), arr(vec![uint(by_uuid), bytes(&[by_payload as u8])])]) }
                         else { arr(vec![uint(3), arr(vec![uint(by_uuid), bytes(&[by_payload as u8, 0xee])])]) }
@@ -513,6 +535,20 @@ impl World {
         (mop, arr(vec![out, arr(ems), self.sys_view()]))
     }
 
+    fn docids_of_uuid(&self, uuid: &uuid::Uuid) -> Vec<u64> {
+        let v = state_value(&self.dev.stringify().unwrap());
+        let mut out = vec![];
+        if let Some(Value::Map(docs)) = map_get(&v, "documents") {
+            for (k, d) in docs {
+                if let Some(idv) = map_get(d, "id") {
+                    let b = match idv { Value::Bytes(b) => b.clone(), other => as_u8_array(other) };
+                    if b == uuid.as_bytes() { out.push(self.docid(k.as_text().unwrap_or(""))); }
+                }
+            }
+        }
+        out
+    }
+    #[allow(dead_code)]
     fn docid_of_uuid(&self, uuid: &uuid::Uuid) -> u64 {
         // document ids are read from the stringified state: documents map docType -> {id,..}
         let v = state_value(&self.dev.stringify().unwrap());
@@ -594,7 +630,9 @@ pub fn random_delivery(rng: &mut StdRng, adversarial: f64) -> Delivery {
     if !rng.gen_bool(adversarial) {
         return Delivery::Latest;
     }
-    match rng.gen_range(0..14) {
+    match rng.gen_range(0..16) {
+        14 => Delivery::LatestWithStatus(rng.gen_range(0..3)),
+        15 => Delivery::CraftedZeroKey,
         12 => Delivery::CraftedForeignRequest(rng.gen_range(0..3)),
         13 => Delivery::CraftedBytesKeyed,
         0 => Delivery::Replay(rng.gen_range(0..8)),
